@@ -223,6 +223,9 @@ def _through_predicates(facts, meths):
     out = []
     for e, pol in facts:
         out.append((e, pol))
+        # the same predicate expanded in place (helper-transparent view): `bool(A or B)` false -> A false, B false
+        if isinstance(e, ast.Call) and call_name(e) == "bool" and len(e.args) == 1 and not e.keywords:
+            out += list(implied_facts(e.args[0], pol))
         if isinstance(e, ast.Call) and not e.args and not e.keywords and isinstance(e.func, ast.Attribute) and unparse(e.func.value) == "self" and e.func.attr in meths:
             rs = [r for r in walk_local(meths[e.func.attr]) if isinstance(r, ast.Return) and r.value is not None]
             if len(rs) == 1:
